@@ -223,6 +223,8 @@ impl Client {
                     // `@?` stands for the newest process (REPL process references are by number)
                     let src = if src.contains("@?") { src.replace("@?", &format!("@{}", types.keys().max().copied().unwrap_or(0))) } else { src };
                     let repl = self.sessions[session].as_mut().unwrap();
+                    // `@!` stands for the session's own process
+                    let src = if src.contains("@!") { src.replace("@!", &format!("@{}", repl.process_id())) } else { src };
                     let r = std::panic::catch_unwind(std::panic::AssertUnwindSafe(|| repl.evaluate(&mut world.env, &src, types)));
                     world.scan_new_msgs();
                     match r {
